@@ -51,18 +51,22 @@ class _modules_copyable:
     context switches.
     """
 
+    __lock__ = RLock()
+
     def __new__(cls, *args, **kwargs):
         """
-        Make this class a singleton (there exists at most one instance).
+        Make this class a singleton (there exists at most one instance). The
+        instance state is initialised exactly once, here, so that nested and
+        concurrent uses share one lock and one reference count.
         """
-        if not hasattr(cls, "__instance__"):
-            cls.__instance__ = super().__new__(cls, *args, **kwargs)
+        with cls.__lock__:
+            if "__instance__" not in cls.__dict__:
+                instance = super().__new__(cls, *args, **kwargs)
+                instance.lock = RLock()
+                instance.refcount = 0
+                instance.patched_table = False
+                cls.__instance__ = instance
         return cls.__instance__
-
-    def __init__(self):
-        self.lock = RLock()
-        self.refcount = 0
-        self.patched_table = False
 
     def __enter__(self):
         with self.lock:
